@@ -58,7 +58,7 @@ CHECKS = {
              "the declared type or to 'invalid'; coerced variables are values of their declared types; rule 5.8.5 as "
              "implemented is a sub-typing check; hence every entry of the argument dictionary is a value of the argument's "
              "declared type -- under named assumptions on the schema (scalar coercers return leaf values and never None, "
-             "input field names unique, input-field defaults valid: the engine does not check the last one) and, for "
+             "input field names unique; nothing is assumed of input-field defaults since the repair a67e006, found by this proof) and, for "
              "variables NESTED in list/object literals, under the premise that they are well-typed for their position (the "
              "engine does not apply 5.8.5 there: known finding C07-nested-variable-usage).",
         note="Trusted: Coq kernel, correspondence harness, parser stand-in, scalar translator; directive "
